@@ -138,7 +138,7 @@ fn main() {
             let mut dead = 0;
             for i in start..start + runs {
                 progress(&progress_path, &format!("{}", i));
-                let (c, d) = tfrc::run_tfrc(&mut tr, i, mix(seed ^ 0x7F2C, i));
+                let (c, d) = tfrc::run_tfrc(&mut tr, i, mix(seed ^ 0x7F2C, i), m.contains_key("bounded"));
                 calls += c;
                 dead += d as u64;
             }
